@@ -267,7 +267,12 @@ CLAIMED["C12"] = {
     "the time since the start; in both nested_sampling_loop bodies every "
     "callee that may read the start time (found by read-frame inference) "
     "is reached only after this process has reset it (a genuine defect of "
-    "the importance sampler found here and fixed: e648c82).",
+    "the importance sampler found here and fixed: e648c82); every "
+    "checkpoint is taken in a resumable state: check_state REQUIRES, when "
+    "checkpoint_on_training is set, that the point recorded last has left "
+    "the live set -- refuted at the call inside consume_sample's "
+    "replacement search (known finding, witnessed end to end: a resumed "
+    "run records the point twice).",
     "note": "NOT decided: that pickle / torch.load reproduce array and "
     "tensor contents (assumed library round trip), float32 agreement of "
     "recomputed INS densities, double counting when the SAME model object "
